@@ -54,6 +54,11 @@ type cfunc struct {
 	localRegs []int32 // registers of fn.Locals (stack Allocs)
 	localTyps []types.Type
 	instrs    int
+	// if-conversion analysis (lazy)
+	pdomOnce sync.Once
+	pdom     []int
+	regionMu sync.Mutex
+	regions  map[int]*regionInfo
 }
 
 var (
